@@ -481,7 +481,7 @@ Proof.
     rewrite tnestH_set_items. apply andb_true_iff. split.
     + eapply tflags_keep; [exact F1'|]. intro Nv. apply no_values_push; [exact Nv|reflexivity].
     + apply fb_push; [exact F2'|]. unfold tnH1; cbn [snd]. rewrite S. cbn [union_span fst snd map forallb].
-      rewrite S, Hd, Ht. cbn [negb andb]. rewrite (aot_single a b Hab). unfold aot_end_ok; cbn [snd andb].
+      rewrite S, Hd, Ht. cbn [negb andb]. idtac "GOAL". match goal with |- ?G => idtac G end. rewrite (aot_single a b Hab). unfold aot_end_ok; cbn [snd andb].
       rewrite andb_true_r. lia.
 Qed.
 
